@@ -341,7 +341,8 @@ def import_by_path(ctx, tmp):
              # `from .render import render`), and a deeper one: the module of that name is still the sub-module
              ('shapes/__init__.py', 'from .render import render\nfrom .deep import leaf\n', None), ('shapes/render.py', 'def render():\n    return 1\n', None),
              ('shapes/deep/__init__.py', 'leaf = 5\n', None), ('shapes/deep/leaf.py', 'W = 4\n', None)]
-    d = os.path.join(tmp, 'imp')
+    # (the root directory's path holds the text '.pyc' without being a compiled file: PyCharm's ~/.pycharm_helpers, a build.pyc_cache)
+    d = os.path.join(tmp, '.pycharm_helpers', 'build.pyc_cache', 'imp')
     for fn, src, _ in cases:
         p = os.path.join(d, fn)
         os.makedirs(os.path.dirname(p), exist_ok=True)
